@@ -51,6 +51,9 @@ func (e *Envelope) SetPayload(payload any) error {
 	e.envelope = &dsse.Envelope{
 		Payload:     base64.StdEncoding.EncodeToString(encodedBytes),
 		PayloadType: PayloadType,
+		// an unsigned envelope is written with an empty signature list, not
+		// null, so that it can be loaded back
+		Signatures: []dsse.Signature{},
 	}
 
 	return nil
